@@ -425,3 +425,11 @@ def o6(h):
             n = px.NP.sqrt(ss)
             ex.goal('coulomb_minus_half_sReg_outside', Eq(U(e1), U(mu * (n - 0.5 * r))))
     px.run_px(h, 'friction_numpy', fn, cap=30, div_mode='goal', sqrt_mode='goal')
+
+
+@obligation(P, 'O7.smooth_distance_corner', cap=600)
+def o7(h):
+    """EdgeCpp.smooth_distance (the smoothed minimum wrapped around the two edge distances at a corner): symmetric in the order
+    of the two edges, non-negative smoothing width, one-sided and tight — the obligation chain is shared with C16"""
+    from .c16 import smooth_distance_obligations
+    smooth_distance_obligations(h)
